@@ -7,11 +7,12 @@ EXTENDS DataRx, TLC
 
 CONSTANTS BaseBytes,   \* byte alphabet (PIDs with good / bad check nibble, data and non-data; payload values)
           MaxLen,      \* packet length bound (bytes incl. PID)
-          MaxPkts      \* number of packets
+          MaxPkts,     \* number of packets
+          MaxResets    \* number of domain resets
 
-VARIABLES npk, smart,
+VARIABLES npk, smart, nrst,
           dc          \* Due1 of the step, evaluated once per input (it contains the CRC16)
-mcvars == <<vars, npk, smart, dc>>
+mcvars == <<vars, npk, smart, nrst, dc>>
 
 Smart(p) == (IF Len(p) >= 1 THEN {Usb2Crc16Lo(Tail(p))} ELSE {})
             \cup (IF Len(p) >= 2 THEN {Usb2Crc16Hi(SubSeq(p, 2, Len(p) - 1))} ELSE {})
@@ -29,8 +30,15 @@ Cycle(i) == /\ dc' = Due1(i)
               /\ StepD(i, o, dc')
               /\ npk' = npk + (IF Rise(i) THEN 1 ELSE 0)
               /\ smart' = IF i.valid THEN Smart(Pkt1(i)) ELSE IF Rise(i) THEN {} ELSE smart
+              /\ UNCHANGED nrst
 
-MCInit == Init /\ npk = 0 /\ smart = {} /\ dc = "none"
+\* a domain reset in a quiet cycle (any allowed output in that cycle)
+DomainReset == /\ nrst < MaxResets /\ ResetLegal(NoIn)
+               /\ dc' = Due1(NoIn)
+               /\ \E o \in MCOutputs(NoIn) : FailingD(NoIn, o, dc') = "ok" /\ ResetStepD(NoIn, o)
+               /\ nrst' = nrst + 1 /\ UNCHANGED <<npk, smart>>
+
+MCInit == Init /\ npk = 0 /\ smart = {} /\ dc = "none" /\ nrst = 0
 
 \* Env actions, by input class
 Quiet     == ~in.active /\ Cycle(NoIn)
@@ -38,7 +46,7 @@ PacketEnd == in.active /\ Cycle(NoIn)
 GapCycle  == (in.active \/ (idle >= MinGap /\ npk < MaxPkts)) /\ Cycle([active |-> TRUE, valid |-> FALSE, data |-> 0])
 ByteCycle == in.active /\ Len(pkt) < MaxLen /\ \E d \in BaseBytes \cup smart : Cycle([active |-> TRUE, valid |-> TRUE, data |-> d])
 
-MCNext == Quiet \/ PacketEnd \/ GapCycle \/ ByteCycle
+MCNext == Quiet \/ PacketEnd \/ GapCycle \/ ByteCycle \/ DomainReset
 MCSpec == MCInit /\ [][MCNext]_mcvars
 
 -----------------------------------------------------------------------------
@@ -46,7 +54,7 @@ MCSpec == MCInit /\ [][MCNext]_mcvars
 (* every branch must be covered.                                                                 *)
 AnyInput == {NoIn} \cup (IF in.active \/ (idle >= MinGap /\ npk < MaxPkts) THEN {[active |-> TRUE, valid |-> FALSE, data |-> 0]} ELSE {})
             \cup (IF in.active /\ Len(pkt) < MaxLen THEN {[active |-> TRUE, valid |-> TRUE, data |-> d] : d \in BaseBytes \cup smart} ELSE {})
-DoB(i, o, d) == /\ FailingD(i, o, d) = "ok" /\ StepD(i, o, d) /\ dc' = d
+DoB(i, o, d) == /\ FailingD(i, o, d) = "ok" /\ StepD(i, o, d) /\ dc' = d /\ UNCHANGED nrst
                 /\ npk' = npk + (IF Rise(i) THEN 1 ELSE 0)
                 /\ smart' = IF i.valid THEN Smart(Pkt1(i)) ELSE IF Rise(i) THEN {} ELSE smart
 Complete   == \E i \in AnyInput : LET d == Due1(i) IN \E o \in MCOutputs(i) : o.cp /\ DoB(i, o, d)
@@ -56,6 +64,6 @@ StreamBeat == \E i \in AnyInput : LET d == Due1(i) IN \E o \in MCOutputs(i) : Be
 QuietEnd   == \E i \in AnyInput : LET d == Due1(i) IN \E o \in MCOutputs(i) : Fall(i) /\ d = "none" /\ DoB(i, o, d)
 Other      == \E i \in AnyInput : LET d == Due1(i) IN \E o \in MCOutputs(i) :
                  ~(o.cp \/ o.mm \/ o.rfr \/ Beat(o) \/ (Fall(i) /\ d = "none")) /\ DoB(i, o, d)
-MCNextByBranch == Complete \/ Mismatch \/ Rfr \/ StreamBeat \/ QuietEnd \/ Other
+MCNextByBranch == Complete \/ Mismatch \/ Rfr \/ StreamBeat \/ QuietEnd \/ Other \/ DomainReset
 MCSpecByBranch == MCInit /\ [][MCNextByBranch]_mcvars
 =============================================================================
